@@ -57,6 +57,27 @@ Interior(n, r) == \A i \in 1..3 : r <= ((n[i] + 1) \div 2) - 2
 
 \* ---- resolution -> Fourier pixels:  round(edge * px / res), px and res in hundredths of an Angstrom
 PixNum(edge, px100) == edge * px100
-Pixels(edge, px100, res100) == (2 * PixNum(edge, px100) + res100) \div (2 * res100)
-PixelsTie(edge, px100, res100) == (2 * PixNum(edge, px100) + res100) % (2 * res100) = 0      \* x.5: not decided
+\* nearest integer; an exact half goes to the EVEN neighbour (the statement says round(), Python's round)
+PixelsUp(edge, px100, res100) == (2 * PixNum(edge, px100) + res100) \div (2 * res100)          \* halves up
+PixelsTie(edge, px100, res100) == (2 * PixNum(edge, px100) + res100) % (2 * res100) = 0       \* x.5 exactly
+Pixels(edge, px100, res100) ==
+    LET u == PixelsUp(edge, px100, res100)
+    IN  IF PixelsTie(edge, px100, res100) /\ u % 2 = 1 THEN u - 1 ELSE u
+\* A tie is decided only when the quotient edge*px/res is computed without rounding error in binary floating point:
+\* pixel size and resolution multiples of 1/4 Angstrom (then edge*px and res are exact and k + 1/2 is representable).
+\* Other ties are rational ties only; which side the float quotient falls on is not stated.
+Dyadic(px100, res100) == px100 % 25 = 0 /\ res100 % 25 = 0
+PixelsDecided(edge, px100, res100) == ~PixelsTie(edge, px100, res100) \/ Dyadic(px100, res100)
+
+\* ---- one column of the hard-edged low-pass: for fixed (k1, k2) the passed k3 form the interval k3^2 <= r^2 - k1^2 - k2^2
+\* around 0, cut to the frequency range.  RunIsColumn decides it from the two ends of a run (convexity of k3^2 <= s).
+ColumnRoom(k1, k2, r) == Sq(r) - Sq(k1) - Sq(k2)
+RunIsColumn(lo, hi, k1, k2, r, N3) ==
+    LET s == ColumnRoom(k1, k2, r)
+        kmin == 0 - (N3 \div 2)
+        kmax == ((N3 + 1) \div 2) - 1
+    IN  /\ s >= 0 /\ lo <= 0 /\ 0 <= hi /\ lo >= kmin /\ hi <= kmax
+        /\ Sq(lo) <= s /\ Sq(hi) <= s
+        /\ (lo = kmin \/ Sq(lo - 1) > s)
+        /\ (hi = kmax \/ Sq(hi + 1) > s)
 =============================================================================
